@@ -57,3 +57,28 @@ impl Execution {
         false
     }
 }
+
+// ---- probe model of `Execution::schedule` for callers' contracts -------------------------------
+// Callers (park, yield_now, branch, thread_done ...) are verified against schedule's *interface*:
+// "called exactly once, in the state the caller must have prepared; returns whether to switch".
+// The probe records the call and the thread state at the call, returns an arbitrary bool and leaves
+// the execution untouched (schedule's own effect is verified separately: c05_schedule_*).
+pub(crate) static mut SCHEDULE_CALLS: u32 = 0;
+pub(crate) static mut SCHEDULE_SAW: Option<crate::rt::thread::verif_kani::SetView> = None;
+
+impl Execution {
+    pub(crate) fn schedule_probe_model(&mut self) -> bool {
+        unsafe {
+            SCHEDULE_CALLS += 1;
+            SCHEDULE_SAW = Some(crate::rt::thread::verif_kani::set_view(&self.threads));
+        }
+        kani::any()
+    }
+}
+
+pub(crate) fn schedule_calls() -> u32 {
+    unsafe { SCHEDULE_CALLS }
+}
+pub(crate) fn schedule_saw() -> Option<crate::rt::thread::verif_kani::SetView> {
+    unsafe { SCHEDULE_SAW }
+}
